@@ -350,6 +350,11 @@ func verifyOne(code []ds.VerifOp, path string) []BCIssue {
 			}
 		case "nop":
 		case "halt", "ret":
+			if c.Name == "halt" && (len(s.blocks) > 0 || len(s.fblk) > 0) {
+				// the program ends inside a construct that was opened and never closed: the
+				// compiler abandoned it half-way (its forward jump is still the unpatched 0)
+				report(pc, "open-construct-at-halt", fmt.Sprintf("halt reached with %d open block(s) and %d open template block(s) on some path", len(s.blocks), len(s.fblk)))
+			}
 			next = false
 		case "jmp":
 			if k, ok := needInt(); ok {
